@@ -15,6 +15,9 @@ pub enum Mutation {
     DeleteLine(usize),
     DuplicateLine(usize),
     SwapLines(usize, usize),
+    /// a block of consecutive lines from another corpus file, inserted at a
+    /// line boundary (mixes language features that no single test combines)
+    InsertLines { at: usize, text: String },
 }
 
 pub const NON_ASCII: &[&[u8]] = &[
@@ -116,6 +119,22 @@ pub fn draw(rng: &mut Rng, src: &[u8], donors: &[Vec<u8>]) -> Mutation {
         let k = rng.below(100);
         if sig.is_empty() && k < 60 {
             continue;
+        }
+        if !donors.is_empty() && rng.chance(1, 5) {
+            let d = rng.pick(donors);
+            let dl: Vec<&[u8]> = d.split_inclusive(|b| *b == b'\n').collect();
+            if !dl.is_empty() {
+                let from = rng.below(dl.len());
+                let n = rng.range(1, 8).min(dl.len() - from);
+                let block: Vec<u8> = dl[from..from + n].concat();
+                if !tokens(&block).iter().any(|t| is_big_number(t)) {
+                    let mut text = String::from_utf8_lossy(&block).to_string();
+                    if !text.ends_with('\n') {
+                        text.push('\n');
+                    }
+                    return Mutation::InsertLines { at: rng.below(nlines + 1), text };
+                }
+            }
         }
         return match k {
             0..=14 => Mutation::DeleteToken(*rng.pick(&sig)),
@@ -226,6 +245,20 @@ pub fn apply(src: &[u8], m: &Mutation) -> Vec<u8> {
                 }
             }
             lines.concat()
+        }
+        Mutation::InsertLines { at, text } => {
+            let mut lines: Vec<&[u8]> = src.split_inclusive(|b| *b == b'\n').collect();
+            let at = (*at).min(lines.len());
+            lines.insert(at, text.as_bytes());
+            let mut out = Vec::new();
+            for (i, l) in lines.iter().enumerate() {
+                out.extend_from_slice(l);
+                // keep the inserted block on its own lines
+                if i + 1 == at && !l.ends_with(b"\n") {
+                    out.push(b'\n');
+                }
+            }
+            out
         }
         Mutation::SwapLines(a, b) => {
             let mut lines: Vec<&[u8]> = src.split_inclusive(|b| *b == b'\n').collect();
